@@ -2,7 +2,7 @@
     Each theorem is closed by [exact] and followed by [Print Assumptions]. *)
 From Coq Require Import List Arith Bool ZArith Reals Permutation.
 From Celer Require Import Base.Num Base.NumR Base.NumF C18.Algorithms C18.Specs C18.ArrayLemmas C18.SearchProofs
-  C18.IntProofs C18.HeapsortProofs C18.IndexProofs C18.Grids C18.GridProofs C18.GridWitness.
+  C18.IntProofs C18.HeapsortProofs C18.IndexProofs C18.Grids C18.GridProofs C18.GridWitness C18.GridFlocq.
 Import ListNotations.
 
 (** ** celeritas::sort (heap sort): for every strict weak order and every array
@@ -156,6 +156,19 @@ Theorem C18_uniform_find_rounded_in_range : forall (rnd : R -> R) (u : R),
   (0 <= bin)%Z /\ (bin + 1 < size)%Z.
 Proof. exact rfind_in_range. Qed.
 Print Assumptions C18_uniform_find_rounded_in_range.
+
+(** ... and for IEEE-754 binary64 itself: [rnd64] is Flocq's round-to-nearest-even
+    onto the binary64 format (FLT_exp (-1074) 53), i.e. the value every
+    non-overflowing binary64 -, / returns; [rfind rnd64] is UniformGrid::find
+    (with from_bounds' delta) evaluated with those roundings.  Holds for every
+    grid of 2 .. 2^52-1 points whose spacing is not subnormal. *)
+Theorem C18_uniform_find_binary64_in_range : forall front back size v,
+  (2 <= size < 4503599627370496)%Z -> front <= v < back ->
+  Raux.bpow Zaux.radix2 (-1022) <= rnd64 (back - front) / IZR (size - 1) ->
+  let bin := rfind rnd64 front back size v in
+  (0 <= bin)%Z /\ (bin + 1 < size)%Z.
+Proof. exact find_bin_float_in_range. Qed.
+Print Assumptions C18_uniform_find_binary64_in_range.
 
 (** without the step back the law fails on binary64 (finding F3, repaired) *)
 Theorem C18_uniform_find_raw_refuted : exists (front back : PrimFloat.float) (size : Z) (v : PrimFloat.float),
